@@ -423,7 +423,13 @@ class J:
         if self.F.is_zero(a0):
             raise Undecided('abs of a field vanishing at the generic point')
         if self.F.p:
-            return self if a0 == min(a0, self.F.p - a0) else -self
+            if a0 == min(a0, self.F.p - a0):
+                return self
+            if getattr(self.F, 'abs_positive', False):
+                # the property declares every abs() argument positive (norms w.r.t. a positive-definite
+                # metric): only points where x is the canonical root of x^2 model that
+                raise NeedResample('abs of a non-canonical value under the positivity assumption')
+            return -self
         return self if a0 > 0 else -self
 
     def is_canonical_positive(self):
